@@ -4,7 +4,7 @@ use std::collections::BTreeMap;
 
 pub const KEYS: &[&str] = &["a", "b", "ab", "a1", "ké", "$$secret"];
 pub const PLAIN_KEYS: &[&str] = &["a", "b", "ab", "a1", "ké"];
-pub const VALUES: &[&str] = &["x", "7", "", "two words", "-3", "7 up", "é✓", "<Empty>", "41"];
+pub const VALUES: &[&str] = &["x", "7", "", "two words", "-3", "7 up", "é✓", "<Empty>", "41", "2147483646", "-2147483648"];
 pub const PATTERNS: &[&str] = &["a*", "*b", "b", "", "*", "$$*", "*1", "k"];
 pub const INCS: &[i32] = &[1, -1, 5, 100, 0];
 
